@@ -133,6 +133,23 @@ def g1(e: Engine, rep: Report, rule: str):
                               'consumed without going through recv_buffer '
                               'or the DATA reader' % f.qname, loc=f.loc(n),
                               reason='enumerated caller')
+            if isinstance(n, ast.Attribute) and n.attr == 'recv_buffer' and \
+                    isinstance(n.ctx, ast.Load):
+                inside_io = f.cls is not None and f.cls.qname == IOC
+                if not inside_io:
+                    # who-may-read: what is buffered at a given moment is an
+                    # accident of segmentation; outside IO only the DATA
+                    # hand-over looks at it
+                    rep.evaluations += 1
+                    rep.check(f.qname in RECV_BUFFER_WRITERS, rule, f.qname,
+                              'read of recv_buffer',
+                              '%s looks at IO.recv_buffer: how much is '
+                              'buffered when it runs depends on how the '
+                              'peer\'s bytes were cut into reads, so what '
+                              'it decides from it differs between '
+                              'segmentations of one stream' % f.qname,
+                              loc=f.loc(n),
+                              reason='IO method or enumerated hand-over')
             tg = []
             if isinstance(n, ast.Assign):
                 tg = n.targets
